@@ -252,4 +252,14 @@ def Sys.cop (s : Sys) (op : COp) : Sys × COut :=
     | .isEndStream => (s, .eos (readerIsEndStream s.sh))
     | .drop => ({ s with sh := readerDrop s.sh, readerAlive := false }, .unit)
 
+/-- The slice std's default `Write::write_vectored` hands to `write`: the first non-empty one
+(an empty slice when there is none). `BodyWriter` does not override `write_vectored`. -/
+def firstNonEmpty : List Bytes → Bytes
+  | [] => []
+  | s :: rest => if s = [] then firstNonEmpty rest else s
+
+/-- `BodyWriter::write_vectored(slices)` on a raw writer. -/
+def Sys.writeVectored (s : Sys) (slices : List Bytes) : Sys × POut × List Nat :=
+  s.pop (.write (firstNonEmpty slices))
+
 end HS
